@@ -17,15 +17,19 @@ import DlmsVerif.Run.Xdlms
 import DlmsVerif.Run.Acse
 import DlmsVerif.Run.Conn
 import DlmsVerif.Run.Client
+import DlmsVerif.Run.Transport
+import DlmsVerif.Run.Security
 
 structure DriverState where
   link : Run.Link.S := {}
   rx : Run.Rx.S := {}
   conn : Run.Conn.S := {}
   cli : Run.Client.S := {}
+  tr : Run.Transport.S := {}
 
 def step (st : DriverState) (line : String) : DriverState × String :=
   match (line.trimAscii.toString.splitOn " ").filter (· ≠ "") with
+  | "sec" :: rest => (st, Run.Security.handle rest)
   | "crc" :: rest => (st, Run.Crc.handle rest)
   | "fld" :: rest => (st, Run.Fields.handle rest)
   | "acse" :: rest => (st, Run.Acse.handle rest)
@@ -37,6 +41,7 @@ def step (st : DriverState) (line : String) : DriverState × String :=
   | "hdlc" :: rest => (st, Run.Hdlc.handle rest)
   | "addr" :: rest => (st, Run.Addr.handle rest)
   | "conn" :: rest => let (l, r) := Run.Conn.handle st.conn rest; ({ st with conn := l }, r)
+  | "tr" :: rest => let (l, r) := Run.Transport.handle st.tr rest; ({ st with tr := l }, r)
   | "cli" :: rest => let (l, r) := Run.Client.handle st.cli rest; ({ st with cli := l }, r)
   | "rx" :: rest => let (l, r) := Run.Rx.handle st.rx rest; ({ st with rx := l }, r)
   | "link" :: rest => let (l, r) := Run.Link.handle st.link rest; ({ st with link := l }, r)
